@@ -20,6 +20,8 @@ extra() { case "$1" in 1dffa83) echo C17;; dbf852f) echo C05;; 70a4f07|2a13abd|9
 while read commit prop; do
   # the v2 fixes live in the v2 module of the same repository
   git -C /repo diff "$commit" "$commit^" > /tmp/revert_fix.patch
+  # a hand-made reverse patch, where later commits touched the same lines
+  [ -f "/verif/tools/revert_patches/$commit.patch" ] && cp "/verif/tools/revert_patches/$commit.patch" /tmp/revert_fix.patch
   if ! git -C /repo apply --check /tmp/revert_fix.patch 2>/dev/null; then echo "REVERSE-PATCH-DOES-NOT-APPLY $commit $prop"; continue; fi
   git -C /repo apply /tmp/revert_fix.patch
   res="NOT-REDETECTED $commit $prop"
